@@ -298,6 +298,15 @@ def cond_facts(cx, s, truth, depth=0):
         m = re.search(r"std::cmp::Partial(Ord|Eq)(<[^>]*>)?( for [^>]*)?>?::(lt|le|gt|ge|eq|ne)$", s[1])
         if m and len(s[2]) == 2:
             return cmp_facts(cx, CMP_CALLS[m.group(4)], strip_refs(s[2][0]), strip_refs(s[2][1]), truth)
+        m = re.search(r"std::ops::Range(Inclusive)?::<Idx>::contains$", s[1])
+        if m and len(s[2]) == 2 and truth:
+            # `(1..=2).contains(&n)`: the bounds are a promoted constant in MIR; they are read from the range literal the
+            # HIR has on the line of this call (only when it is the one `contains` over a literal range on that line)
+            rng = _literal_range(cx, s)
+            if rng is not None:
+                lo, hi = rng
+                item = cx.lin(strip_refs(s[2][1]))
+                return [(item.add(Lin(k=lo), -1), ">="), (Lin(k=hi if m.group(1) else hi - 1).add(item, -1), ">=")]
         if EMPTY_CALLS.search(s[1]) and len(s[2]) == 1:
             a = len_atom(s[2][0])
             cx.nonneg.add(a)
@@ -333,6 +342,34 @@ def cond_facts(cx, s, truth, depth=0):
                     pass
                 return out
     return []
+
+
+def _literal_range(cx, s):
+    from . import hir as H
+    bb = s[3][0] if len(s) > 3 and s[3] else None
+    fn = getattr(cx.B, "fn", None)
+    if bb is None or fn is None or not fn.get("hir") or bb >= len(cx.B.blocks):
+        return None
+    line = cx.B.blocks[bb]["term"].get("line")
+    found = []
+    for x in H.walk(H.body_of(fn)):
+        if x.get("k") == "mcall" and x["m"] == "contains" and x.get("line") == line:
+            r = x["recv"]
+            while r.get("k") in ("ref", "paren") or (r.get("k") == "block" and not r.get("stmts") and r.get("expr") is not None):
+                r = r["e"] if "e" in r else r["expr"]
+            lo = hi = None
+            if r.get("k") == "call" and (r.get("callee") or "").endswith("RangeInclusive::<Idx>::new") and len(r["args"]) == 2:
+                lo, hi = r["args"]
+            elif r.get("k") == "struct" and H.last(r["res"].get("path") or "") == "Range":
+                fl = {fd["name"]: fd["e"] for fd in r["fields"]}
+                lo, hi = fl.get("start"), fl.get("end")
+            if lo is not None and hi is not None and lo.get("k") == "lit" and hi.get("k") == "lit" and isinstance(lo.get("v"), int) and isinstance(hi.get("v"), int):
+                found.append((lo["v"], hi["v"]))
+            else:
+                found.append(None)
+    if len(found) == 1 and found[0] is not None:
+        return found[0]
+    return None
 
 
 _OK_FACTS = {}
@@ -457,6 +494,10 @@ def edge_facts(B, cx, site_bb, _depth=0):
                 l = cx.lin(sym)
                 if len(vals) == 1 and not is_other:
                     facts.append((l.add(Lin(k=vals[0]), -1), "=="))
+                elif len(vals) > 1 and not is_other and all(isinstance(v, int) for v in vals):
+                    # `match n { 1 | 2 => .. }`: one of the listed values, so between the least and the greatest of them
+                    facts.append((l.add(Lin(k=min(vals)), -1), ">="))
+                    facts.append((Lin(k=max(vals)).add(l, -1), ">="))
                 elif is_other:
                     for v in t["vals"]:
                         if isinstance(v, int):
